@@ -23,8 +23,10 @@ ROWS = {"r1": ("m1", "my_func"), "r2": ("m1", "myXfunc"), "r3": ("m1", "MY_FUNC"
         # same module and qualname as r1, differing in ONE other column only (yield / return / argument types)
         "r9": ("m1", "my_func"), "r10": ("m1", "my_func"), "r11": ("m1", "my_func"),
         # the dotted path module + "." + qualname is the same for both, module and qualname are not
-        "r12": ("m1.sub", "area"), "r13": ("m1", "sub.area")}
-BATCHES = {"b1": (["r1", "r2"], 0), "b2": (["r3", "r5", "r1"], 1), "b3": (["r4", "r6", "r9", "r12", "r13"], 0), "b4": (["r7", "r8", "r10"], 1),
+        "r12": ("m1.sub", "area"), "r13": ("m1", "sub.area"),
+        # an identifier with a letter outside the Basic Multilingual Plane right after the prefix "my"
+        "r14": ("m1", "my\U00020000func")}
+BATCHES = {"b1": (["r1", "r2"], 0), "b2": (["r3", "r5", "r1"], 1), "b3": (["r4", "r6", "r9", "r12", "r13"], 0), "b4": (["r7", "r8", "r10", "r14"], 1),
            "b5": ([], 2), "b6": (["r11", "r9"], 0)}
 
 
@@ -543,6 +545,66 @@ def run_free(sc):
     return {"tid": sc["tid"], "events": events, "dropped_answers": dropped}
 
 
+def _reldir_child(base, pipe, repo):
+    """In ONE process: make_store("traces.sqlite3") in directory A, add batch bA; chdir to B, make_store of the same
+    RELATIVE name, add batch bB, query; back in A, query.  Every store is used from the directory it was made in."""
+    import logging
+    import sys
+    logging.disable(logging.CRITICAL)
+    if repo not in sys.path:
+        sys.path.insert(0, repo)
+    from monkeytype.db.sqlite import SQLiteStore
+    out = {}
+    try:
+        a, b = os.path.join(base, "A"), os.path.join(base, "B")
+        os.chdir(a)
+        sa = SQLiteStore.make_store("traces.sqlite3")
+        sa.add(make_traces(["r1", "r2"], 0))
+        os.chdir(b)
+        sb = SQLiteStore.make_store("traces.sqlite3")
+        sb.add(make_traces(["r4", "r6"], 0))
+        q = lambda st, m: [(r.module, r.qualname, r.arg_types, r.return_type, r.yield_type) for r in st.filter(m, None, 2000)]  # noqa: E731
+        out["B"] = {"m1": q(sb, "m1"), "m2": q(sb, "m2"), "mods": list(sb.list_modules())}
+        os.chdir(a)
+        sa2 = SQLiteStore.make_store("traces.sqlite3")
+        out["A"] = {"m1": q(sa2, "m1"), "m2": q(sa2, "m2"), "mods": list(sa2.list_modules())}
+        pipe.send(("ok", out))
+    except Exception as e:
+        pipe.send(("fail", "%s: %s" % (type(e).__name__, e)))
+
+
+def run_reldir(sc):
+    """sc = {tid, reldir: "A" | "B"}: the trace of ONE of the two databases (what was added to it, what its queries answered,
+    what its file holds afterwards)."""
+    ctx = mp.get_context("fork")
+    d = tlc.scratch_dir("mtverif_rel_")
+    try:
+        for x in ("A", "B"):
+            os.makedirs(os.path.join(d, x))
+        parent, child = ctx.Pipe()
+        p = ctx.Process(target=_reldir_child, args=(d, child, core.REPO), daemon=True)
+        p.start()
+        if not parent.poll(60):
+            raise RuntimeError("reldir child did not answer")
+        msg = parent.recv()
+        p.join(10)
+        which = sc["reldir"]
+        rows = ["r1", "r2"] if which == "A" else ["r4", "r6"]
+        events = [{"ev": "AddStart", "c": "c1", "b": "b" + which, "rows": expected_rows(rows), "nbad": 0}]
+        if msg[0] != "ok":
+            events.append({"ev": "QueryFailed", "c": "c1", "op": "reldir", "err": str(msg[1])[:80]})
+        else:
+            events.append({"ev": "AddEnd", "c": "c1", "b": "b" + which, "ok": True, "err": ""})
+            res = msg[1][which]
+            for m in ("m1", "m2"):
+                events.append({"ev": "Filter", "c": "c1", "m": m, "p": [0], "n": 2000, "res": [row_abs(*r) for r in res[m]]})
+            events.append({"ev": "Modules", "c": "c1", "res": res["mods"]})
+            events.append(check_event(os.path.join(d, which, "traces.sqlite3")))
+    finally:
+        shutil.rmtree(d, ignore_errors=True)
+    return {"tid": sc["tid"], "events": events}
+
+
 def calibrate_callbacks(rows):
     """Number of progress callbacks an uninterrupted add() of `rows` rows takes (on an empty table)."""
     ctx = mp.get_context("fork")
@@ -564,7 +626,8 @@ def _run_chunk(chunk):
     core.use_repo()
     import logging
     logging.disable(logging.CRITICAL)
-    return [(run_bigcut(sc) if "cut" in sc else run_free(sc) if "writers" in sc else run_behaviour(sc)) for sc in chunk]
+    return [(run_bigcut(sc) if "cut" in sc else run_free(sc) if "writers" in sc else run_reldir(sc) if "reldir" in sc
+             else run_behaviour(sc)) for sc in chunk]
 
 
 def run_behaviours(scs, procs=16):
@@ -682,6 +745,10 @@ def main(pid, tier, seed, replay=None):
                         "queries": 24 if q else 60, "seed": seed * 1000 + j})
         plan.append({"family": "free-running processes: 2-4 writers x 6 (10) batches, 1-2 readers, an independent checker, one "
                                "shared log (answers placed between QueryStart and arrival)", "behaviours": len(scs) - n0})
+    if not replay:
+        for which in ("A", "B"):
+            scs.append({"tid": len(scs) + 1, "reldir": which})
+        plan.append({"family": "one process, two working directories, make_store() of the same RELATIVE file name in each", "behaviours": 2})
     records = run_behaviours(scs)
     by_tid = {r["tid"]: r for r in records}
     sc_by_tid = {s["tid"]: s for s in scs}
@@ -695,6 +762,9 @@ def main(pid, tier, seed, replay=None):
                 continue
             if "writers" in sc:
                 run.violation(dict(signature(rec, clause), free_running=True), {k: sc[k] for k in sc if k != "tid"})
+                continue
+            if "reldir" in sc:
+                run.violation(dict(signature(rec, clause), relative_store_path=sc["reldir"]), {k: sc[k] for k in sc if k != "tid"})
                 continue
             run.violation(signature(rec, clause), {"hist": sc["hist"], "big": sc.get("big", False)})
     kinds = lambda r: {e["ev"] for e in r["events"]}  # noqa: E731
